@@ -63,6 +63,10 @@ def for_target_read_outside(src):
             if isinstance(n, ast.Name) and isinstance(n.ctx, ast.Load) and n.id in tnames \
                     and id(n) not in inside:
                 return True
+            # an augmented assignment reads its target too (y += 2)
+            if isinstance(n, ast.AugAssign) and isinstance(n.target, ast.Name) \
+                    and n.target.id in tnames and id(n) not in inside:
+                return True
     return False
 
 
